@@ -7,12 +7,12 @@ from harness import common
 from harness.common import Stream
 
 PID = "C15"
-LEAN_MODULES = ["Astm.Proofs.C15", "Astm.State.C15"]
+LEAN_MODULES = ["Astm.Proofs.C15", "Astm.State.C15", "Astm.Surface.C15"]
 THEOREMS = [
     "Astm.C15.loop_spec", "Astm.C15.bounded_retries_stop_at_first_success", "Astm.C15.budget",
     "Astm.C15.expected_counts", "Astm.C15.attempt_succeeds_iff", "Astm.C15.post_only_when_authenticated",
     "Astm.C15.defaults_contract", "Astm.C15.example_push",
-    "Astm.C15.anchored_code_keeps_no_other_state",
+    "Astm.C15.anchored_code_keeps_no_other_state", "Astm.C15.anchored_code_keeps_its_signatures",
 ]
 RULE = ("all sequences of per-attempt outcomes over a 12-letter fault alphabet (connection error / timeout / HTTP 500 / "
         "non-JSON / non-object body on the version, user and push calls, wrong password, empty items, success:false, "
